@@ -1,12 +1,12 @@
 #!/venv/bin/python
 """keep_mutant.py <src dir> <pid> <name>: verify (scratch worktree), run the quick check against it in /repo, keep under /verif/seeded/."""
-import json, subprocess, sys, shutil
+import json, os, subprocess, sys, shutil
 from pathlib import Path
 src, pid, name = Path(sys.argv[1]), sys.argv[2], sys.argv[3]
 tier = sys.argv[4] if len(sys.argv) > 4 else "quick"
 v = subprocess.run(["/verif/tools/verify_mutant.sh", str(src)], capture_output=True, text=True).stdout.strip().splitlines()
 ok = v and v[-1] == "VERIFIED"
-m = subprocess.run(["/verif/tools/mutest.sh", str(src / "patch.diff"), pid, tier], capture_output=True, text=True).stdout.strip()
+m = subprocess.run(["/verif/tools/mutest_wt.sh" if os.environ.get("MUTEST") == "wt" else "/verif/tools/mutest.sh", str(src / "patch.diff"), pid, tier], capture_output=True, text=True).stdout.strip()
 print(name, "|", v[-2] if len(v) > 1 else v, "|", v[-1] if v else "?", "|", m[:200])
 if not ok:
     sys.exit(1)
